@@ -806,22 +806,47 @@ func runRespelled(m *mon, r *rand.Rand, seed int64, tier string, k int) {
 }
 
 func nsRead(m *mon, c *ucfg.Config, opts []ucfg.Option, sigClass string, bound int, d func() string) {
-	m.do(call{entry: "Unpack", class: sigClass, bound: bound, desc: func() string { return "into map " + d() }}, func() {
+	// The step budget of a read is relative to what is stored: merges onto
+	// references multiply the stored settings, and a read that unfolds every
+	// reference once per path legitimately resolves more often than the
+	// constant allows (74 stored nodes -> 6552 resolutions, returned in 60 ms;
+	// thorough tier, seed 12). 256 resolutions per stored node on top of the
+	// constant, capped below the depth at which a runaway recursion would
+	// overflow the workers' stack before the monitor sees it.
+	budget := stepBudget
+	if c != nil {
+		n := len(ucfg.VerifWalk(c))
+		budget += 256 * n
+		if budget > 30000 {
+			budget = 30000
+		}
+		m.res.SetAdd("read_budget_class", fmt.Sprintf("stored-nodes<=%d", 1<<uint(bitLen(n))))
+	}
+	m.do(call{entry: "Unpack", class: sigClass, bound: bound, budget: budget, desc: func() string { return "into map " + d() }}, func() {
 		var out map[string]interface{}
 		if c.Unpack(&out, opts...) != nil {
 			m.res.Ev("reads_failed", 1)
 		}
 	})
-	m.do(call{entry: "Unpack", class: sigClass, bound: bound, desc: func() string { return "into slice " + d() }}, func() {
+	m.do(call{entry: "Unpack", class: sigClass, bound: bound, budget: budget, desc: func() string { return "into slice " + d() }}, func() {
 		var out []interface{}
 		if c.Unpack(&out, opts...) != nil {
 			m.res.Ev("reads_failed", 1)
 		}
 	})
-	m.do(call{entry: "FlattenedKeys", class: sigClass, bound: bound, desc: d}, func() { c.FlattenedKeys(opts...) })
+	m.do(call{entry: "FlattenedKeys", class: sigClass, bound: bound, budget: budget, desc: d}, func() { c.FlattenedKeys(opts...) })
 	for _, p := range []string{"a", "a.b", "a.0", "a.b.c"} {
 		p := p
-		m.do(call{entry: "Has", class: sigClass, bound: bound, desc: func() string { return fmt.Sprintf("Has(%q,-1) ", p) + d() }}, func() { c.Has(p, -1, opts...) })
-		m.do(call{entry: "Child", class: sigClass, bound: bound, desc: func() string { return fmt.Sprintf("Child(%q,-1) ", p) + d() }}, func() { c.Child(p, -1, opts...) })
+		m.do(call{entry: "Has", class: sigClass, bound: bound, budget: budget, desc: func() string { return fmt.Sprintf("Has(%q,-1) ", p) + d() }}, func() { c.Has(p, -1, opts...) })
+		m.do(call{entry: "Child", class: sigClass, bound: bound, budget: budget, desc: func() string { return fmt.Sprintf("Child(%q,-1) ", p) + d() }}, func() { c.Child(p, -1, opts...) })
 	}
+}
+
+func bitLen(n int) int {
+	b := 0
+	for n > 0 {
+		b++
+		n >>= 1
+	}
+	return b
 }
